@@ -534,7 +534,28 @@ def o_vec_new(ev, st, t, site):
     return _set_dest(st, t, ("seq", nid))
 
 
+def o_opt_as_ref(ev, st, t, site):
+    raw = _arg(ev, st, t, 0)
+    v = _deref(st, raw)
+    if v is None or v[0] != "variant" or v[1] not in ("Some", "None"):
+        return False
+    if v[1] == "None":
+        return _set_dest(st, t, NONE)
+    return _set_dest(st, t, some(("refval", dict(v[2]).get(0))))
+
+
+def o_opt_cloned(ev, st, t, site):
+    v = _deref(st, _arg(ev, st, t, 0))
+    if v is None or v[0] != "variant" or v[1] not in ("Some", "None"):
+        return False
+    if v[1] == "None":
+        return _set_dest(st, t, NONE)
+    return _set_dest(st, t, some(_deref(st, dict(v[2]).get(0))))
+
+
 OPTION_ORACLES = [
+    (r"Option.*::(cloned|copied)$", o_opt_cloned),
+    (r"Option.*::(as_ref|as_mut|as_deref|as_deref_mut)$", o_opt_as_ref),
     (r"Option.*::(unwrap|expect)$|Result.*::(unwrap|expect)$", o_unwrap),
     (r"Option.*::take$", o_opt_take),
     (r"(vec::Vec|VecDeque).*::(new|with_capacity)$", o_vec_new),
